@@ -87,7 +87,8 @@ def sym_find(ctx, cfg):
     for nm in names:
         ci = int(ctx.fresh_int("casing", 0, len(CASINGS) - 1))
         cols.append(CASINGS[ci](nm))
-    extra = ["feat1", "Feat2"]
+    # features whose names merely START WITH, END WITH or CONTAIN a reserved name (exact match is asked for)
+    extra = ["feat1", "Feat2", "PeptideLength", "xLabel", "myScanNrOffset", "Proteinsx"]
     pos = int(ctx.fresh_int("rotation", 0, len(cols) + len(extra) - 1))
     allc = cols + extra
     allc = allc[pos:] + allc[:pos]
@@ -187,7 +188,7 @@ def _pin_table(ctx, cfg):
         cols[case("calcmass")] = [SNum(z3.Real("cm%d" % i)) for i in range(n)]
     feats, nabits = [], {}
     for j in range(nf):
-        name = "feat%d" % j
+        name = (["PeptideLength", "LabelScore", "feat%d" % j][j] if j < 2 else "feat%d" % j) if cfg.get("tricky_feature_names") else "feat%d" % j
         cells = []
         for i in range(n):
             b = z3.Bool("na_%d_%d" % (i, j))
@@ -313,6 +314,7 @@ def harnesses(tier):
                           functions=[P.drop_missing_values_and_fill_spectra_dataframe], stubs=stubs, sample_rate=0.5))
     reads = [dict(rows=2, features=2, encoding="pm1", optional=["expmass"], colchunk=[2, 6], casing=2),
              dict(rows=1, features=2, encoding="pm1", optional=[], colchunk=[2, 5], casing=2, feature_last=True),
+             dict(rows=1, features=2, encoding="zero", optional=["expmass"], colchunk=[2, 6], casing=2, tricky_feature_names=True),
              dict(rows=2, features=1, encoding="zero", optional=[], colchunk=[2, 4], casing=0, rotate=3),
              dict(rows=1, features=2, encoding="bool", optional=["expmass", "ret_time", "filename", "calcmass"], colchunk=[3, 7], casing=1, suffix=".parquet")]
     if tier == "thorough":
@@ -387,7 +389,7 @@ def real_read(cfg, inp):
     finally:
         P.CHUNK_SIZE_COLUMNS_FOR_DROP_COLUMNS, P.CHUNK_SIZE_ROWS_FOR_DROP_COLUMNS = old
     opt = cfg.get("optional", [])
-    feats = [c for c in df.columns if c.startswith("feat")]
+    feats = [c for c in df.columns if c.startswith("feat") or c in ("PeptideLength", "LabelScore")]
     exp_spec = [case(c) for c in ("filename", "scannr", "ret_time", "expmass") if c == "scannr" or c in opt]
     exp_feat = [f for f in feats if not df[f].isna().any()]
     lab = df[case("label")]
@@ -454,7 +456,7 @@ def real_nascan(cfg, inp):
     df = _real_table(inp)
     case = CASINGS[cfg.get("casing", 2)]
     n = len(df)
-    feats = [c for c in df.columns if c.startswith("feat")]
+    feats = [c for c in df.columns if c.startswith("feat") or c in ("PeptideLength", "LabelScore")]
     spectra = [case("scannr"), case("label")]
     old = P.CHUNK_SIZE_ROWS_FOR_DROP_COLUMNS
     P.CHUNK_SIZE_ROWS_FOR_DROP_COLUMNS = int(inp["row_chunk"])
